@@ -157,6 +157,26 @@ impl ReadFixedSizeDep for DepBytes {
     }
 }
 
+/// A dependent fixed-size type whose decoding fails for some element values (first byte divisible by 3): an array of these has
+/// elements that are inside the window but do not decode; `read_item` and the iterator must agree on every index.
+pub struct DepPicky;
+impl ReadBinaryDep for DepPicky {
+    type Args<'a> = usize;
+    type HostType<'a> = &'a [u8];
+    fn read_dep<'a>(ctxt: &mut ReadCtxt<'a>, n: usize) -> Result<&'a [u8], ParseError> {
+        let b = ctxt.read_slice(n)?;
+        if b[0] % 3 == 0 {
+            return Err(ParseError::BadValue);
+        }
+        Ok(b)
+    }
+}
+impl ReadFixedSizeDep for DepPicky {
+    fn size(n: usize) -> usize {
+        n
+    }
+}
+
 struct Env<'a> {
     ar: &'a [u8],
     st: St,
@@ -763,6 +783,42 @@ fn step(ctx: &Ctx, st: St) -> Vec<St> {
                         rep.bad(&op, "should-succeed", json!({"k": k, "size": sz, "rem": rem}));
                     } else if env.obs(&c) != env.here() {
                         rep.bad(&op, "effect-on-failure", json!({}));
+                    }
+                }
+            }
+        }
+    }
+
+    // --- dependent arrays with elements that do not decode: the iterator yields one item per index, Err exactly where
+    // read_item fails, and goes on to the elements behind a failing one
+    for sz in [1usize, 2, 3] {
+        for k in lens(rem, sz) {
+            if k.checked_mul(sz).map_or(true, |b| b > rem) {
+                continue;
+            }
+            let op = format!("read_array_dep::<DepPicky>({},{})", k, sz);
+            let mut c = env.ctxt();
+            match guard(|| c.read_array_dep::<DepPicky>(k, sz).map(|arr| {
+                let want: Vec<Option<&[u8]>> = (0..k).map(|i| { let e = &env.rest()[i * sz..i * sz + sz]; if e[0] % 3 == 0 { None } else { Some(e) } }).collect();
+                let by_index: Vec<Option<&[u8]>> = (0..k).map(|i| arr.read_item(i).ok()).collect();
+                let mut it = arr.iter_res();
+                let mut by_iter: Vec<Option<&[u8]>> = Vec::new();
+                while let Some(r) = it.next() {
+                    by_iter.push(r.ok());
+                    if by_iter.len() > k + 2 {
+                        break;
+                    }
+                }
+                (want, by_index, by_iter)
+            })) {
+                Err(p) => rep.bad(&op, &format!("panic:{}", p.site_key("/repo")), json!({"panic": p.msg, "at": p.loc(), "k": k, "size": sz})),
+                Ok(Err(_)) => rep.bad(&op, "should-succeed", json!({"k": k, "size": sz, "rem": rem})),
+                Ok(Ok((want, by_index, by_iter))) => {
+                    if by_index != want {
+                        rep.bad(&op, "array-read_item", json!({"expected": format!("{:?}", want), "got": format!("{:?}", by_index)}));
+                    }
+                    if by_iter != want {
+                        rep.bad(&op, "iter_res-with-undecodable-elements", json!({"expected": format!("{:?}", want), "got": format!("{:?}", by_iter)}));
                     }
                 }
             }
